@@ -53,6 +53,26 @@ func (Labeler) After(x *Exec, op *Op, res *Res) {
 	if op.K == KUndelegate && res.OK {
 		x.UndelCount[op.Denom]++
 	}
+	if x.ShareOps == nil {
+		x.ShareOps = map[string]int{}
+		x.MaxShareTotal = map[string]*big.Rat{}
+	}
+	if (op.K == KUndelegate || op.K == KRedelegate) && res.OK {
+		x.ShareOps[op.Denom]++
+	}
+	for _, s := range []*Snap{pre, post} {
+		for _, dn := range s.AssetOrder {
+			if v := ratAbs(decRat(s.Assets[dn].TotalValidatorShares)); x.MaxShareTotal[dn] == nil || v.Cmp(x.MaxShareTotal[dn]) > 0 {
+				x.MaxShareTotal[dn] = v
+			}
+		}
+	}
+	for dn := range x.MaxShareTotal {
+		if a, ok := post.Assets[dn]; !ok || (a.TotalTokens.IsZero() && a.TotalValidatorShares.IsZero()) {
+			delete(x.MaxShareTotal, dn)
+			delete(x.ShareOps, dn)
+		}
+	}
 	for _, dn := range post.AssetOrder {
 		a := post.Assets[dn]
 		if a.TotalTokens.IsZero() && a.TotalValidatorShares.IsZero() {
